@@ -526,16 +526,24 @@ fn gen_ix(rng: &mut Rng, span: usize) -> u16 {
         3 => 0x4000,
         _ => rng.range(0x4000, 0xF000) as u16,
     };
-    // keep the destination clear of the stack scratch area and the return address
-    let lo = ix as usize;
-    let hi = lo + span + 2;
-    let clash = |a: usize| (lo <= a && a < hi) || (lo <= a + 0x10000 && a + 0x10000 < hi);
-    if (SCRATCH_LO as usize..SCRATCH_HI as usize).any(clash) {
-        0x8000
+    // keep the destination clear of the stack scratch area (the ROM's own pushes would show up in it)
+    if clashes(ix, span) {
+        // directly above the scratch area; wraps through ROM and RAM and ends below it (span is capped by gen_req)
+        let alt = if clashes(0x8000, span) { SCRATCH_HI } else { 0x8000 };
+        debug_assert!(!clashes(alt, span));
+        alt
     } else {
         ix
     }
 }
+
+/// does [ix, ix+span+2) (mod 64K) touch the stack scratch area?
+fn clashes(ix: u16, span: usize) -> bool {
+    (SCRATCH_LO..SCRATCH_HI).any(|a| (a.wrapping_sub(ix) as usize) < span + 2)
+}
+
+/// largest destination span that still leaves the scratch area alone
+const MAX_SPAN: usize = 0x10000 - (SCRATCH_HI - SCRATCH_LO) as usize - 4;
 
 pub fn gen_req(rng: &mut Rng, block: Option<&Vec<u8>>, maxblk: usize) -> Req {
     let blen = block.map(|b| b.len()).unwrap_or(0);
@@ -553,6 +561,12 @@ pub fn gen_req(rng: &mut Rng, block: Option<&Vec<u8>>, maxblk: usize) -> Req {
         6 => rng.range(0, 600) as u16,
         7 => blen as u16,
         _ => matching,
+    };
+    // a destination of (nearly) 64 K cannot avoid the caller's stack: shorten such requests
+    let de = if window_span(de, maxblk) > MAX_SPAN {
+        if de >> 8 == 0xFF { 0xFF00 | (de & 0x3F) } else { (MAX_SPAN - 1) as u16 }
+    } else {
+        de
     };
     let span = window_span(de, maxblk);
     let ix = gen_ix(rng, span);
